@@ -78,6 +78,11 @@ type objSpec struct {
 	ETag    string `json:"etag,omitempty"`
 	ModUnix int64  `json:"mod_unix,omitempty"`
 	Len     int64  `json:"len,omitempty"`
+	// Unenc != 0: the backend holds a calendar the iCalendar encoder refuses
+	// (1: VEVENT without DTSTAMP, 2: VCALENDAR without PRODID). The value of
+	// calendar-data cannot be produced for it: 200 and 5xx are both left open
+	// for that one property, everything else is owed as usual.
+	Unenc int `json:"unenc,omitempty"`
 }
 
 type davSpec struct {
@@ -127,6 +132,9 @@ type resource struct {
 	LinkDir bool
 	// Optional: a dangling link may be listed or omitted.
 	Optional bool
+	// OpenStatus: properties whose value the server cannot produce (see
+	// objSpec.Unenc): answered under 200 or under a 5xx status.
+	OpenStatus map[string]bool
 }
 
 type reference struct {
@@ -523,7 +531,11 @@ func (e *env) buildDav() error {
 		if !ok {
 			return fmt.Errorf("object %q outside every collection", o.Path)
 		}
-		add(&resource{Path: o.Path, Level: "object", Parent: par, Required: req})
+		rs := &resource{Path: o.Path, Level: "object", Parent: par, Required: req}
+		if o.Unenc != 0 {
+			rs.OpenStatus = map[string]bool{name(nsCal, "calendar-data"): true}
+		}
+		add(rs)
 	}
 	if cal {
 		b := &doubles.CalBackend{Principal: d.Principal, HomeSet: d.HomeSet}
@@ -533,6 +545,12 @@ func (e *env) buildDav() error {
 		}
 		for i, o := range d.Objs {
 			co := caldav.CalendarObject{Path: o.Path, ETag: o.ETag, ContentLength: o.Len, Data: makeCalendar(fmt.Sprintf("uid-%d", i))}
+			switch o.Unenc {
+			case 1:
+				co.Data.Children[0].Props.Del(ical.PropDateTimeStamp)
+			case 2:
+				co.Data.Props.Del(ical.PropProductID)
+			}
 			if o.ModUnix != 0 {
 				co.ModTime = time.Unix(o.ModUnix, 0)
 			}
